@@ -32,6 +32,18 @@ F = Fraction
 def gen_spec(rng):
     ctrl = rng.choice(["manual", "manual", "main", "main-ict"])
     spec = net.rand_feeder_spec(rng, max_lines=5, ctrl="main" if ctrl != "manual" else "manual", allow_mg=True, allow_tie=True)
+    gen_spec.cfg = getattr(gen_spec, "cfg", 0) + 1
+    if gen_spec.cfg % 3 == 0:
+        # several backup lines, also two between the same pair of feeders (a valid, meshed-but-radially-operated configuration)
+        spec = net.rand_feeder_spec(rng, max_lines=5, ctrl="main" if ctrl != "manual" else "manual", allow_mg=rng.random() < 0.4, allow_tie=False, nfeed=rng.choice([2, 2, 3]))
+        fds = spec["feeders"]; ties = []
+        pair = rng.sample(range(len(fds)), 2)
+        for k in range(rng.choice([2, 2, 3])):
+            fa, fb_ = pair if k < 2 else rng.sample(range(len(fds)), 2)
+            ties.append({"a": [fa, rng.randrange(len(fds[fa]["parent"]))], "b": [fb_, rng.randrange(len(fds[fb_]["parent"]))]})
+            if rng.random() < 0.5:
+                ties[-1]["open_at_build"] = True
+        spec["tie"] = None; spec["ties"] = ties
     if ctrl == "main-ict":
         from . import c06
         spec["ctrl"]["ict"] = c06.fallible_ict(rng, spec)
@@ -204,6 +216,15 @@ def gen(rng, n, nh=0):
         cases.append({"kind": "run", "spec": spec, "unit": 3, "dt": "1", "hours": str(rng.choice([10, 16])), "nprof": 24,
                       "start": [0, rng.randint(0, 23), 0], "seed": rng.randint(0, 10 ** 6), "rate": rng.choice([600.0, 1500.0]),
                       "trafo_rate": 0.0, "entries": ["mc-debug/save"]})
+    for _ in range(max(3, n // 5)):
+        # two backup lines between the same two feeders and frequent faults: both qualify whenever a piece of one feeder is cut off
+        spec = net.rand_feeder_spec(rng, max_lines=4, ctrl=rng.choice(["manual", "main"]), allow_mg=False, allow_tie=False, nfeed=2)
+        fds = spec["feeders"]
+        spec["tie"] = None
+        spec["ties"] = [{"a": [0, len(fds[0]["parent"]) - 1], "b": [1, rng.randrange(len(fds[1]["parent"]))]},
+                        {"a": [0, rng.randrange(len(fds[0]["parent"]))], "b": [1, len(fds[1]["parent"]) - 1], "open_at_build": True}]
+        cases.append({"kind": "run", "spec": spec, "unit": 3, "dt": "1", "hours": "36", "nprof": 24, "start": [0, rng.randint(0, 23), 0],
+                      "seed": rng.randint(0, 10 ** 6), "rate": 1500.0, "trafo_rate": 0.0, "entries": ["seq/nosave", "mc-debug/nosave"]})
     for _ in range(nh):
         # steps that are not binary fractions of the reporting unit: 1 h in days / weeks, 20 / 10 / 6 min in hours, 1 s in hours ...
         u, dt_s = rng.choice([(4, 3600), (4, 1800), (5, 3600), (3, 1200), (3, 600), (3, 360), (3, 60), (2, 20), (2, 1), (3, 1), (4, 7200), (3, 3600), (2, 60)])
